@@ -395,7 +395,7 @@ func mutate(r *rand.Rand, root *J) string {
 
 type reason struct {
 	What  string
-	Class string // "" = must be rejected; "F6b" = known finding class
+	Class string // "" = must be rejected (no known-finding classes are left)
 }
 
 var intLike = regexp.MustCompile(`^[+-]?[0-9]+$`)
@@ -434,13 +434,13 @@ func checkUintField(v *J, name string, min float64, rs *[]reason) {
 	}
 	switch {
 	case f != math.Trunc(f):
-		*rs = append(*rs, reason{name + " is not an integer: " + v.N, "F6b"})
+		*rs = append(*rs, reason{name + " is not an integer: " + v.N + " (regression F6b)", ""})
 	case f < 0:
-		*rs = append(*rs, reason{name + " is negative: " + v.N, "F6b"})
+		*rs = append(*rs, reason{name + " is negative: " + v.N + " (regression F6b)", ""})
 	case f < min:
 		*rs = append(*rs, reason{name + " is zero", ""})
-	case f >= 18446744073709551616.0:
-		*rs = append(*rs, reason{name + " does not fit 64 bits: " + v.N, "F6b"})
+	case f >= 9007199254740992.0:
+		*rs = append(*rs, reason{name + " is not exactly representable (>= 2^53): " + v.N, ""})
 	}
 }
 
@@ -805,41 +805,21 @@ func c16Oracle(c *violations, name string, muts []string, tree *J, doc []byte, o
 	}
 	// accepted: malformed documents must not be
 	if len(rs) > 0 {
-		kf := rs[0].Class
-		for _, r := range rs {
-			if r.Class == "" {
-				kf = ""
-			}
-		}
 		what := "a malformed tile matrix set document is accepted: " + rs[0].What
-		switch kf {
-		case "F6b":
-			what = "a negative, fractional or oversized value of an unsigned integer member is accepted (wrapped / truncated) instead of rejected (F6b)"
-		}
 		var all []string
 		for _, r := range rs {
 			all = append(all, r.What)
 		}
-		c.add(hc.Violation{What: what, KnownFinding: kf, Input: in, Observed: "decoded without error; re-encoded: " + trunc(string(o.enc1), 400), Expected: map[string]any{"error because": all}})
+		c.add(hc.Violation{What: what, Input: in, Observed: "decoded without error; re-encoded: " + trunc(string(o.enc1), 400), Expected: map[string]any{"error because": all}})
 	}
 	if o.encK != "ok" {
 		c.add(hc.Violation{What: "a decoded tile matrix set does not encode", Input: in, Observed: o.encM})
 		return
 	}
-	wrapCause := false
-	for _, r := range rs {
-		if r.Class == "F6b" {
-			wrapCause = true
-		}
-	}
 	// decode . encode . decode
 	r2 := decodeTMS(o.enc1)
 	if r2.Kind != "ok" {
-		kf := ""
-		if wrapCause {
-			kf = "F6b"
-		}
-		c.add(hc.Violation{What: "the encoding of a decoded document does not decode again", KnownFinding: kf, Input: in, Observed: r2.Kind + ": " + r2.Msg})
+		c.add(hc.Violation{What: "the encoding of a decoded document does not decode again", Input: in, Observed: r2.Kind + ": " + r2.Msg})
 		return
 	}
 	enc2, k2, m2 := encodeTMS(r2.Value)
@@ -848,11 +828,7 @@ func c16Oracle(c *violations, name string, muts []string, tree *J, doc []byte, o
 		return
 	}
 	if !bytes.Equal(o.enc1, enc2) {
-		kf, what := "", "the encoding is not stable: encode(decode(encode(decode d))) differs from encode(decode d)"
-		if wrapCause {
-			kf, what = "F6b", "a wrapped negative unsigned member re-encodes to a different number on every round trip (F6b)"
-		}
-		c.add(hc.Violation{What: what, KnownFinding: kf, Input: in, Observed: map[string]string{"first": trunc(string(o.enc1), 600), "second": trunc(string(enc2), 600)}})
+		c.add(hc.Violation{What: "the encoding is not stable: encode(decode(encode(decode d))) differs from encode(decode d)", Input: in, Observed: map[string]string{"first": trunc(string(o.enc1), 600), "second": trunc(string(enc2), 600)}})
 	} else {
 		// equal value: nil and empty slices are the same value for every user of the API (same JSON, same length,
 		// same iteration), so they are identified before reflect.DeepEqual
@@ -860,11 +836,7 @@ func c16Oracle(c *violations, name string, muts []string, tree *J, doc []byte, o
 		normalizeNilEmpty(&a)
 		normalizeNilEmpty(&b)
 		if !reflect.DeepEqual(a, b) {
-			kf := ""
-			if wrapCause {
-				kf = "F6b"
-			}
-			c.add(hc.Violation{What: "decode(encode(decode d)) is not equal to decode d", KnownFinding: kf, Input: in, Observed: fmt.Sprintf("%+v  vs  %+v", a, b)})
+			c.add(hc.Violation{What: "decode(encode(decode d)) is not equal to decode d", Input: in, Observed: fmt.Sprintf("%+v  vs  %+v", a, b)})
 		} else if !reflect.DeepEqual(*o.res.Value, *r2.Value) {
 			c.c.Count("values equal up to nil vs. empty slices (keywords: [] / variableMatrixWidths: [])")
 		}
@@ -879,11 +851,11 @@ func runC16(c *hc.Ctx) error {
 	var buf bufferedCases
 	c.Sum.Rule = "documents = the built-in documents (whole, unmutated), and their 3-matrix prefixes, the test document and 4 synthetic documents covering every optional member and the 3 CRS forms, each with 1-3 structural mutations (delete member / array element, change type, change value from pools of boundary numbers and strings, insert / duplicate array element, duplicate key, add or replace a CRS form, add a member) plus the systematic single replacement of every member of the kitchen-sink document by every pool value; distinct = distinct document text; non-trivial = mutated and (decodes, or fails for a reason other than a missing crs/tileMatrices)"
 	c.Sum.Oracle = "on the implementation (json.Unmarshal / json.Marshal of tms20.TileMatrixSet, panics recovered): never a panic; a document that an independent schema check (types, presence, positive integer sizes, 2-element points, integer-like ids, a CRS in one of three forms) calls malformed is rejected with an error; an accepted document d satisfies decode(encode(decode d)) = decode d (reflect.DeepEqual with nil and empty slices identified) and encode is byte-stable; built-in documents re-encode semantically equal (keys unordered, numbers by float64 value) to the original"
-	c.Sum.Partial = "decode_encode_decode carries the hypothesis that unsigned members survive printing and reading (tms_stable; implied by all sizes < 2^53; violated only through F6b); nonpositive_rejected holds in the _partial form stated (zero / truncating-to-zero sizes and non-positive cell sizes), its full form is refuted by C16_refuted_* (F6b); decode_total is unconditional since the repair of F6c; values are compared with nil and empty slices identified (norm_tms)"
+	c.Sum.Partial = ""
 	c.Sum.TrustedBase = []string{
 		"text -> tree: encoding/json syntax check and easyjson lexer (the model starts from the JSON tree; strings are byte strings, valid UTF-8 only)",
 		"strconv.ParseFloat is correctly rounded and strconv's shortest formatting round-trips (model: numbers kept as the decimals of the document, compared by their binary64 image f64)",
-		"marshmallow v1.1.5 coercions observed on the real code: JSON null leaves a member at its zero value; a number for a uint member is converted with Go's float64->uint conversion (truncation toward zero; negative values wrap modulo 2^64, -1<x<0 gives 0; values >= 2^64 or < -2^63 give 2^63 on amd64); no integrality or sign check",
+		"marshmallow v1.1.5 coercions observed on the real code: JSON null leaves a member at its zero value; a number for a uint member is converted with Go's float64->uint conversion -- since the repair of F6b (/repo 4bfd034) tms20 checks on the raw map first that such a number is whole, not negative and below 2^53 (tileWidth, tileHeight, matrixWidth, matrixHeight, and coalesce / minTileRow / maxTileRow of every object in variableMatrixWidths), so the conversion is exact",
 		"points (pointOfOrigin, boundingBox.lowerLeft / upperRight): TwoDPoint decodes itself (repair of F6c, /repo 909171c): exactly an array of two JSON numbers, anything else (other length, null, non-number element, non-array) is an error; in a tile matrix the error is recorded by the custom unmarshaler without stopping the population of the other members, in the bounding box it stops the streaming decoder",
 		"marshmallow: a wrong JSON type for a primitive / slice / array / struct member stops population with an error ; an invalid element inside a slice, and the error of CornerOfOrigin's custom unmarshaler, are recorded without stopping; unknown members are ignored; member names are case sensitive; duplicate keys: last wins inside tile matrices / crs / wkt (Go maps), every occurrence is converted in order at the top level and in boundingBox (streaming) where null never overwrites",
 		"[]string members: null elements become \"\"; `[]` gives an empty non-nil slice",
